@@ -499,11 +499,21 @@ def _raw(t):
     return torch.as_strided(t, (t.numel(),), (1,), t.storage_offset())
 
 
+def _store(dst, src):
+    """A backend writes the result into the buffer's memory; torch's Python-level guard against in-place updates of inference
+    tensors outside inference mode does not apply to it (the completion may be delivered after the caller left the block)."""
+    if dst.is_inference():
+        with torch.inference_mode():
+            dst.copy_(src)
+    else:
+        dst.copy_(src)
+
+
 def _rw(tensor):
     raw = _raw(tensor)
     if raw is None:
-        return (lambda: tensor.detach().clone().reshape(-1)), (lambda res: tensor.copy_(res.reshape(tensor.shape)))
-    return (lambda: raw.detach().clone()), (lambda res: raw.copy_(res))
+        return (lambda: tensor.detach().clone().reshape(-1)), (lambda res: _store(tensor, res.reshape(tensor.shape)))
+    return (lambda: raw.detach().clone()), (lambda res: _store(raw, res))
 
 
 def _broadcast(tensor, src=None, group=None, async_op=False, group_src=None):
